@@ -1132,6 +1132,7 @@ func ruleViewElem(c *Ctx) {
 	views := collectViews(c.P, se)
 	sites := findIndexSites(c.P, views)
 	elemOf := map[*types.Named]*Shape{}
+	ambiguous := map[*types.Named]bool{}
 	for _, s := range sites {
 		if s.wrap == nil || !s.isConst || int(s.idx) >= len(s.vi.desc.Fields) {
 			continue
@@ -1160,10 +1161,16 @@ func ruleViewElem(c *Ctx) {
 		}
 		if old, ok := elemOf[rt]; ok {
 			if d, _ := shapeDiff(old, field.Elem, ""); d != "" {
+				// one wrapper type produced over fields of different element shapes (a generic As* applied to several
+				// fields): the type alone does not say which elements a value of it holds
+				ambiguous[rt] = true
 				continue
 			}
 		}
 		elemOf[rt] = field.Elem
+	}
+	for rt := range ambiguous {
+		delete(elemOf, rt)
 	}
 	c.stat("list_view_types_linked", len(elemOf))
 	n := 0
